@@ -125,13 +125,18 @@ type SimOpts struct {
 	Ordered, Unordered, Transfer, V2, Alias bool
 	// DesyncClientIDs creates one extra client on chain A first, so that the two chains do not hand out identical client ids
 	DesyncClientIDs bool
+	// RecordABCI records every block of every chain (kit.Chain.ABCI) so that the history can be replayed elsewhere
+	RecordABCI bool
+	// SameChannelIDs keeps ibctesting from bumping the channel sequence through the keeper (a state change that is
+	// not a transaction); both chains then hand out identical channel ids
+	SameChannelIDs bool
 }
 
 func AllLanes() SimOpts { return SimOpts{Ordered: true, Unordered: true, Transfer: true, V2: true, Alias: true} }
 
 // NewSim builds two chains and the requested lanes.
 func NewSim(c *kit.Check, r *kit.Rng, o SimOpts) *Sim {
-	w := kit.NewWorld(c.T, 2)
+	w := kit.NewWorldOpts(c.T, 2, kit.WorldOpts{RecordABCI: o.RecordABCI})
 	s := &Sim{C: c, W: w, R: r, Focus: c.Prop, bySrc: map[string]*Pkt{}, lastSeq: map[string]uint64{},
 		nextRecv: map[string]uint64{}, nextAck: map[string]uint64{}}
 	s.Ch[0], s.Ch[1] = w.Chains[0], w.Chains[1]
@@ -158,6 +163,9 @@ func NewSim(c *kit.Check, r *kit.Rng, o SimOpts) *Sim {
 	}
 	if o.Transfer {
 		p := ibctesting.NewTransferPath(a, b)
+		if o.SameChannelIDs {
+			p.DisableUniqueChannelIDs()
+		}
 		p.Setup()
 		s.Lanes = append(s.Lanes, &Lane{Name: "T", P: p, Transfer: true})
 		if o.Alias {
